@@ -17,19 +17,29 @@ import (
 	"sort"
 	"strings"
 	"syscall"
+	"time"
 
 	remoteexecution "github.com/bazelbuild/remote-apis/build/bazel/remote/execution/v2"
 	"github.com/buildbarn/bb-remote-execution/pkg/builder"
+	"github.com/buildbarn/bb-remote-execution/pkg/filesystem/access"
+	"github.com/buildbarn/bb-remote-execution/pkg/filesystem/pool"
+	"github.com/buildbarn/bb-remote-execution/pkg/proto/remoteworker"
+	runner_pb "github.com/buildbarn/bb-remote-execution/pkg/proto/runner"
 	"github.com/buildbarn/bb-storage/pkg/blobstore"
 	"github.com/buildbarn/bb-storage/pkg/blobstore/buffer"
 	"github.com/buildbarn/bb-storage/pkg/blobstore/slicing"
+	"github.com/buildbarn/bb-storage/pkg/clock"
 	"github.com/buildbarn/bb-storage/pkg/digest"
 	"github.com/buildbarn/bb-storage/pkg/filesystem"
 	"github.com/buildbarn/bb-storage/pkg/filesystem/path"
+	"github.com/buildbarn/bb-storage/pkg/util"
+	"google.golang.org/grpc"
 	"google.golang.org/grpc/codes"
 	"google.golang.org/grpc/status"
 	"google.golang.org/protobuf/encoding/protowire"
 	"google.golang.org/protobuf/proto"
+	"google.golang.org/protobuf/types/known/durationpb"
+	"google.golang.org/protobuf/types/known/emptypb"
 
 	g "verif/harness/internal/gallina"
 	"verif/harness/internal/hcommon"
@@ -413,6 +423,135 @@ func (c fakeCAS) FindMissing(ctx context.Context, digests digest.Set) (digest.Se
 }
 
 var _ blobstore.BlobAccess = fakeCAS{}
+
+// ---------------------------------------------------------------------------
+// Executor mode: the same command through LocalBuildExecutor.Execute
+
+// bdir is a builder.BuildDirectory over fnode. MergeDirectoryContents
+// installs the input root of the history; everything else is the fdir
+// behaviour.
+type bdir struct {
+	*fdir
+	x *xworld
+}
+
+type xworld struct {
+	w        *world
+	pre      *fnode   // input root to install
+	postOps  []op     // what the action does
+	build    *fnode   // the build directory
+	root     *fnode   // the input root directory inside it (once created)
+	merged   bool     // input root installed
+	callsAtMerge int  // directory calls made until the input root was installed
+	callsAtNew   int  // directory calls at the last moment before NewOutputHierarchy could have run
+	ran      bool
+	atRun    *fnode   // input root when the runner was invoked
+	callsAtRun int
+}
+
+func (d *bdir) EnterBuildDirectory(name path.Component) (builder.BuildDirectory, error) {
+	c, err := d.enter(name)
+	if err != nil {
+		return nil, err
+	}
+	if d.n == d.x.build && name.String() == "root" {
+		d.x.root = c.n
+	}
+	return &bdir{c, d.x}, nil
+}
+
+func (d *bdir) EnterUploadableDirectory(name path.Component) (builder.UploadableDirectory, error) {
+	return d.EnterBuildDirectory(name)
+}
+
+func (d *bdir) EnterParentPopulatableDirectory(name path.Component) (builder.ParentPopulatableDirectory, error) {
+	return d.EnterBuildDirectory(name)
+}
+
+func (d *bdir) InstallHooks(filePool pool.FilePool, errorLogger util.ErrorLogger) {}
+
+func (d *bdir) MergeDirectoryContents(ctx context.Context, errorLogger util.ErrorLogger, dg digest.Digest, monitor access.UnreadDirectoryMonitor) error {
+	d.n.children = d.x.pre.clone().children
+	d.x.merged = true
+	d.x.callsAtMerge = d.w.calls
+	return nil
+}
+
+func (d *bdir) Mknod(name path.Component, perm os.FileMode, deviceNumber filesystem.DeviceNumber) error {
+	return status.Error(codes.Unimplemented, "not used")
+}
+
+func (d *bdir) Remove(name path.Component) error {
+	d.w.calls++
+	remove(d.n, []string{name.String()})
+	return nil
+}
+
+func (d *bdir) RemoveAll(name path.Component) error { return d.Remove(name) }
+
+type bcreator struct{ x *xworld }
+
+func (c bcreator) GetBuildDirectory(ctx context.Context, actionDigestIfNotRunInParallel *digest.Digest) (builder.BuildDirectory, *path.Trace, error) {
+	return &bdir{&fdir{c.x.w, c.x.build}, c.x}, nil, nil
+}
+
+// frunner plays the action: it records the input root it finds, applies
+// the history's post operations to it and leaves empty stdout/stderr files.
+type frunner struct{ x *xworld }
+
+func (r frunner) CheckReadiness(ctx context.Context, in *runner_pb.CheckReadinessRequest, opts ...grpc.CallOption) (*emptypb.Empty, error) {
+	return &emptypb.Empty{}, nil
+}
+
+func (r frunner) Run(ctx context.Context, in *runner_pb.RunRequest, opts ...grpc.CallOption) (*runner_pb.RunResponse, error) {
+	x := r.x
+	x.ran = true
+	x.callsAtRun = x.w.calls
+	if x.root == nil {
+		return nil, status.Error(codes.Internal, "no input root")
+	}
+	x.atRun = x.root.clone()
+	for _, o := range x.postOps {
+		switch o.K {
+		case "post":
+			put(x.root, o, true)
+		case "rm":
+			remove(x.root, o.Loc)
+		}
+	}
+	put(x.build, op{Loc: []string{"stdout"}, T: "file"}, true)
+	put(x.build, op{Loc: []string{"stderr"}, T: "file"}, true)
+	return &runner_pb.RunResponse{}, nil
+}
+
+// runExecutor drives LocalBuildExecutor.Execute and returns the response.
+func runExecutor(h *history, command *remoteexecution.Command, pre *fnode) (*xworld, *remoteexecution.ExecuteResponse) {
+	w := newWorld()
+	x := &xworld{w: w, pre: pre, build: &fnode{kind: kDir}}
+	for _, o := range h.Ops {
+		if o.K == "post" || o.K == "rm" {
+			x.postOps = append(x.postOps, o)
+		}
+	}
+	commandData, _ := proto.Marshal(command)
+	commandDigest := w.sum(commandData)
+	w.extra[dkey(commandDigest)] = commandData
+	action := &remoteexecution.Action{
+		CommandDigest:   commandDigest.GetProto(),
+		InputRootDigest: w.sum(nil).GetProto(),
+		Timeout:         durationpb.New(time.Hour),
+		DoNotCache:      true,
+	}
+	actionData, _ := proto.Marshal(action)
+	be := builder.NewLocalBuildExecutor(fakeCAS{w}, bcreator{x}, frunner{x}, clock.SystemClock, time.Hour,
+		nil, 1<<20, map[string]string{}, h.Force)
+	updates := make(chan *remoteworker.CurrentState_Executing, 16)
+	response := be.Execute(context.Background(), nil, nil, w.digestFunction, &remoteworker.DesiredState_Executing{
+		ActionDigest: w.sum(actionData).GetProto(),
+		Action:       action,
+	}, updates)
+	return x, response
+}
 
 // ---------------------------------------------------------------------------
 // Digest graph -> numbered table of decoded blobs
@@ -917,20 +1056,48 @@ func (area) Execute(raw json.RawMessage) (term string, info *hcommon.Info, err e
 		t.set(k, "BFile", g.App("BFile", gstr(w.fileBlobs[k])))
 	}
 
-	var files, dirs, syms []string
-	for _, f := range result.OutputFiles {
-		files = append(files, g.App("mkOF", gstr(f.Path), t.idTerm(pkey(f.Digest)), g.Bool(f.IsExecutable)))
-	}
-	for _, d := range result.OutputDirectories {
-		rootDigest := "None"
-		if d.RootDirectoryDigest != nil {
-			rootDigest = g.Some(t.idTerm(pkey(d.RootDirectoryDigest)))
+	resultTerms := func(result *remoteexecution.ActionResult) (files, dirs, syms []string) {
+		for _, f := range result.OutputFiles {
+			files = append(files, g.App("mkOF", gstr(f.Path), t.idTerm(pkey(f.Digest)), g.Bool(f.IsExecutable)))
 		}
-		dirs = append(dirs, g.App("mkOD", gstr(d.Path), t.idTerm(pkey(d.TreeDigest)), g.Bool(d.IsTopologicallySorted), rootDigest))
+		for _, d := range result.OutputDirectories {
+			rootDigest := "None"
+			if d.RootDirectoryDigest != nil {
+				rootDigest = g.Some(t.idTerm(pkey(d.RootDirectoryDigest)))
+			}
+			dirs = append(dirs, g.App("mkOD", gstr(d.Path), t.idTerm(pkey(d.TreeDigest)), g.Bool(d.IsTopologicallySorted), rootDigest))
+		}
+		for _, s := range result.OutputSymlinks {
+			syms = append(syms, g.App("mkOS", gstr(s.Path), gstr(s.Target)))
+		}
+		return
 	}
-	for _, s := range result.OutputSymlinks {
-		syms = append(syms, g.App("mkOS", gstr(s.Path), gstr(s.Target)))
+	files, dirs, syms := resultTerms(result)
+
+	// The same command, input root and action through LocalBuildExecutor.
+	x, response := runExecutor(&h, command, pre)
+	xOK := response.Status == nil || response.Status.Code == 0
+	xTouched := !x.ran && (x.w.calls > x.callsAtMerge || len(x.w.puts) > 0)
+	if !x.merged {
+		return "", nil, fmt.Errorf("executor did not install the input root: %v", response.Status)
 	}
+	xMid := &fnode{kind: kDir}
+	if x.atRun != nil {
+		xMid = x.atRun
+	}
+	xFiles, xDirs, xSyms := resultTerms(response.Result)
+	switch {
+	case !x.ran && xOK:
+		info.Outs["executor: not run, no error"]++
+	case !x.ran:
+		info.Outs["executor: not run, error"]++
+	case xOK:
+		info.Outs["executor: run, ok"]++
+	default:
+		info.Outs["executor: run, error"]++
+	}
+	xTerm := g.App("mkExec", g.Bool(x.ran), g.Bool(xTouched), entriesTerm(xMid),
+		g.List(xFiles), g.List(xDirs), g.List(xSyms), g.Bool(xOK))
 	info.Outs[fmt.Sprintf("files=%d", min(len(files), 4))]++
 	info.Outs[fmt.Sprintf("dirs=%d", min(len(dirs), 4))]++
 	info.Outs[fmt.Sprintf("syms=%d", min(len(syms), 4))]++
@@ -943,13 +1110,14 @@ func (area) Execute(raw json.RawMessage) (term string, info *hcommon.Info, err e
 
 	putsTerm := idList(t, w.puts)
 	uploadsTerm := idList(t, w.uploads)
+	tableTerm := t.term()
 	term = g.App("mkCase",
 		cmdTerm, g.Bool(h.Force), entriesTerm(pre),
 		g.Bool(newOK), g.Bool(touched),
 		g.Bool(mkOK), entriesTerm(mid), entriesTerm(post),
-		t.term(),
+		tableTerm,
 		g.List(files), g.List(dirs), g.List(syms), g.Bool(upErr), g.Nat(other),
-		putsTerm, uploadsTerm, g.List(visits))
+		putsTerm, uploadsTerm, g.List(visits), xTerm)
 	return term, info, nil
 }
 
